@@ -332,7 +332,7 @@ def lattice(rng, big):
 def run(ctx):
     pres = vlib.coq_prove("C07")
     ctx.set_proof(pres)
-    rng = ctx.rng
+    rng = ctx.rng.fork()      # vlib.Rng(seed) streams of neighbouring seeds are shifted copies of one another (they re-synchronise); a forked stream starts far away
     big = not ctx.quick
     env = {"VERIF_TMP": os.path.join(ctx.scratch, "tmp-")}
     spec_fail = []
